@@ -11,17 +11,23 @@
 (* a valid package position: that implicit precondition is a guard here;    *)
 (* when it is not met the machine moves to "panic".                         *)
 (* GuardPackage = FALSE is the pinned code, TRUE the code with the fix.     *)
+(* "Parse+imports" is Decorator.Parse on a decorator with an identifier      *)
+(* resolver: decoration then reads the import specs; a spec whose path is    *)
+(* not a string literal (possible in a partial file: badimport) cannot be    *)
+(* unquoted.  GuardImportPath = FALSE: the resolver panics there; TRUE: it   *)
+(* returns an error.  The resolver may also refuse a well-formed file.       *)
 (***************************************************************************)
 EXTENDS Naturals, Sequences, TLC
 
-CONSTANT GuardPackage
-VARIABLES cls, entry, pc, result
+CONSTANTS GuardPackage, GuardImportPath
+VARIABLES cls, entry, pc, result, badimport
 
-vars == <<cls, entry, pc, result>>
+vars == <<cls, entry, pc, result, badimport>>
 Classes == {"nilerr", "nopkg", "partial", "ok"}
-Entries == {"Parse", "ParseFile", "ParseDir"}
+Entries == {"Parse", "ParseFile", "ParseDir", "Parse+imports"}
 
-Init == cls \in Classes /\ entry \in Entries /\ pc = "parse" /\ result = "none"
+Init == /\ cls \in Classes /\ entry \in Entries /\ pc = "parse" /\ result = "none"
+        /\ badimport \in BOOLEAN /\ (badimport => cls = "partial")
 
 \* parser.ParseFile / ParseDir returned
 AfterParse ==
@@ -31,21 +37,24 @@ AfterParse ==
      ELSE IF cls = "nopkg" /\ GuardPackage
      THEN pc' = "done" /\ result' = "error"                      \* the fix: no package clause -> the parse error
      ELSE pc' = "decorate" /\ result' = result
-  /\ UNCHANGED <<cls, entry>>
+  /\ UNCHANGED <<cls, entry, badimport>>
 
 \* DecorateFile: fragment() needs Fset.File(file.Pos())
 Decorate ==
   /\ pc = "decorate"
   /\ IF cls = "nopkg" THEN pc' = "panic" /\ result' = "panic"
-     ELSE pc' = "print" /\ result' = IF cls = "ok" THEN "tree" ELSE "tree+error"
-  /\ UNCHANGED <<cls, entry>>
+     ELSE IF entry = "Parse+imports" /\ badimport
+     THEN IF GuardImportPath THEN pc' = "done" /\ result' = "error" ELSE pc' = "panic" /\ result' = "panic"
+     ELSE \/ pc' = "print" /\ result' = IF cls = "ok" THEN "tree" ELSE "tree+error"
+          \/ entry = "Parse+imports" /\ pc' = "done" /\ result' = "error"      \* the resolver refuses (dot-import ...)
+  /\ UNCHANGED <<cls, entry, badimport>>
 
 \* printing the returned tree: output or an error (format.Node may refuse Bad nodes)
 DoPrint ==
   /\ pc = "print"
   /\ \E r \in {"output", "printerror"} : (cls = "ok" => r = "output") /\ result' = r
   /\ pc' = "done"
-  /\ UNCHANGED <<cls, entry>>
+  /\ UNCHANGED <<cls, entry, badimport>>
 
 Next == AfterParse \/ Decorate \/ DoPrint
 Spec == Init /\ [][Next]_vars
@@ -56,7 +65,7 @@ NoPackageIsError == (pc = "done" /\ cls \in {"nilerr", "nopkg"}) => result = "er
 
 \* what an observed (entry, class, parse outcome, print outcome) may be
 AllowedParse(e, c) ==
-  CASE c = "ok" -> {"tree"}
+  CASE c = "ok" -> IF e = "Parse+imports" THEN {"tree", "error"} ELSE {"tree"}
     [] c = "partial" -> IF e = "ParseDir" THEN {"error"} ELSE {"tree+error", "error"}
     [] OTHER -> {"error"}
 AllowedPrint(c, p) == IF p \in {"tree", "tree+error"} THEN (IF c = "ok" THEN {"output"} ELSE {"output", "printerror"}) ELSE {"none"}
